@@ -73,7 +73,7 @@ fn to_py(core: &Core, ind: usize) -> String {
             }
         }
         Core::ExpressionType { expr, ty } => format!("{}: {}", to_py(expr, ind), to_py(ty, ind)),
-        Core::DocStr { string } => format!("\"\"\"{string}\"\"\""),
+        Core::DocStr { string } => format!("\"\"\"{}\"\"\"", string.replace("\r\n", "\n")),
         Core::Str { string } => format!("\"{}\"", one_line(string)),
         Core::FStr { string } => format!("f\"{}\"", one_line(string)),
         Core::Int { int } => int.clone(),
@@ -478,9 +478,13 @@ fn indent(amount: usize) -> String {
 }
 
 /// A line break inside a Mamba string literal is written as an escape: a Python string in
-/// single quotes cannot span lines.
+/// single quotes cannot span lines. The line break is the same character whether the file
+/// has LF or CRLF line endings.
 fn one_line(string: &str) -> String {
-    string.replace('\r', "\\r").replace('\n', "\\n")
+    string
+        .replace("\r\n", "\n")
+        .replace('\r', "\\r")
+        .replace('\n', "\\n")
 }
 
 fn newline_if_body(core: &Core, ind: usize) -> String {
